@@ -40,7 +40,7 @@ META = {
 
 SMALL = [
     {"name": "x_resreg", "threads": [["reserve:1", "register:1"], ["reserve:2", "lookup:1"]]},
-    {"name": "x_unreg", "threads": [["reserve:1", "register:1", "unregister:1"], ["lookup:1", "lookup:1"]]},
+    {"name": "x_unreg", "threads": [["reserve:1", "register:1", "unregister:1"], ["lookup:1"]]},
 ]
 RANDOM = {"name": "r3", "threads": [["reserve:1", "register:1", "lookup:2", "unregister:1"],
                                     ["reserve:2", "lookup:1", "register:2", "lookup:3"],
